@@ -76,6 +76,18 @@ def gen_cases(ctx):
             cases.append(("gen%d " % deg + " ".join(fcorr.argbits(x) for x in args),
                           "trajpoly%d_gen F64_ops %s" % (deg, " ".join(fcorr.coqf(x) for x in args)),
                           ("gen", deg, args)))
+    # directed: every pattern of zero / non-zero boundary values (a shortcut taken for "rest to rest" style requests must test all
+    # the values it relies on): cubic 2^4, quintic 2^6, septic 2^8 patterns in thorough, a seeded third of them in quick
+    import itertools
+    for deg in (3, 5, 7):
+        pats = list(itertools.product((0, 1), repeat=NB[deg] - 1))
+        if ctx.quick and len(pats) > 64:
+            pats = [q for q in pats if r.random() < 0.34]
+        for pat in pats:
+            args = [float(r.choice([1, 2, 4]))] + [float(r.choice([-3, -2, -1, 1, 2, 3, 5])) if b else 0.0 for b in pat]
+            cases.append(("gen%d " % deg + " ".join(fcorr.argbits(x) for x in args),
+                          "trajpoly%d_gen F64_ops %s" % (deg, " ".join(fcorr.coqf(x) for x in args)),
+                          ("gen", deg, args)))
     for deg in (3, 5, 7):
         for k in range(n):
             c = [fcorr.rand_double(r) for _ in range(deg + 1)]
